@@ -517,12 +517,15 @@ int read_clu(struct in_buffer* b , struct msa** m)
                 /* msa = alloc_msa(); */
         }
 
+        /* skip the header line (and empty lines in front of it) */
         ni =0;
         for(nl = 0; nl < b->n_lines;nl++){
                 line = b->l[nl]->line;
                 line_len = b->l[nl]->len;
                 ni++;
-                break;
+                if(!line_is_blank(line, line_len)){
+                        break;
+                }
         }
         active_seq =0;
         for(nl = ni; nl < b->n_lines;nl++){
